@@ -22,3 +22,9 @@ for d, j in divs:
 for k, v in c.most_common(80):
     print(v, k, ex[k])
 print(chk.stats)
+if len(sys.argv) > 3:
+    k = 0
+    for d, j in divs:
+        if sys.argv[3] in json.dumps(d):
+            print(json.dumps(j.open_event())[:300]); print(j.cmds[-4:]); print(json.dumps(d)[:1500]); k += 1
+            if k >= 3: break
